@@ -6,7 +6,7 @@ import macro
 from common import build, log, run_th
 LEVEL = "model_checking"
 
-FAMILIES = ["selfrep", "grow", "mutual", "finite", "prefix1", "temps"]
+FAMILIES = ["selfrep", "grow", "mutual", "finite", "prefix1", "temps", "erase"]
 
 
 def run(chk):
@@ -34,13 +34,21 @@ def run(chk):
             # self-reproducing, and what is left when the budget runs out is a valid program: only the budget error can mark it incorrect
             ("selfvalid", "DEFINE a := 1 AS a := 1 END DEFINE\na := 1; b := a"),
             # inserts its slot twice and matches its own output: without a bound on the stream it doubles with every pass
-            ("doubling", "DEFINE w <V> AS w RUN f WITH $0 , $0 END END DEFINE\nw a")]
+            ("doubling", "DEFINE w <V> AS w RUN f WITH $0 , $0 END END DEFINE\nw a"),
+            # the same, and what is left when the stream bound stops the expansion is a valid program
+            ("doubling_valid", "PROGRAM f IN a, b DO x0 := a END\nDEFINE big := <V> AS big := RUN f WITH $0 , $0 END END DEFINE\nbig := 1"),
+            # a rejected (non-linear) macro next to a runaway one: both errors are due, the budget error must not be swallowed
+            ("selfvalid_with_rejected", "DEFINE bad <P> AS $0 END DEFINE\nDEFINE a := 1 AS a := 1 END DEFINE\na := 1")]
     recs, rc, err = run_th(th, ["compile"], [{"i": i, "files": {"m": s}, "main": "m", "watch": 300} for i, (_, s) in enumerate(srcs)], timeout=900)
     got = {r["i"]: r for r in recs if "ok" in r}
     for i, (nm, s) in enumerate(srcs):
         r = got.get(i)
         if r is None:
             chk.violation("c11:compile:%s" % nm, "compile did not return within the time limit on %r (exit %s)" % (s, rc), {"source": s})
+        elif nm == "selfvalid_with_rejected" and all((e["file"], e["line"]) == ("m", 1) for e in r["errors"]):
+            chk.violation("c11:compile:%s" % nm, "compile reports only the non-linear macro (errors at %s) for %r: the expansion of the other macro is "
+                          "unfinished after the whole budget and no too-many-substitutions error is reported"
+                          % ([(e["file"], e["line"]) for e in r["errors"]], s), {"source": s, "result": r})
         elif (nm == "finite") != r["ok"]:
             chk.violation("c11:compile:%s" % nm, "compile returned ok=%s for %r: an unfinished expansion must be marked incorrect, a finished one not"
                           % (r["ok"], s), {"source": s, "result": r})
